@@ -40,7 +40,9 @@ Next ==
   /\ l <= Len(Rec)
   /\ l' = l + 1
   /\ LET e == Rec[l] IN
-     IF e.ev = "reset" THEN
+     IF e.ev = "reset_after_crash" THEN      \* the process died in this run (reported by the orchestrator)
+        /\ failed' = TRUE /\ UNCHANGED <<live, s, mode, viol, drift>>
+     ELSE IF e.ev = "reset" THEN
         /\ live' = OInit /\ s' = IInit /\ mode' = e.mode
         /\ failed' = FALSE /\ UNCHANGED <<viol, drift>>
      ELSE IF failed THEN UNCHANGED <<live, s, mode, failed, viol, drift>>
